@@ -105,6 +105,11 @@ def run(tier):
     common.tlc_require_ok(r, "MC_Locks_sep")
     v.add_tlc(r)
     v.cov["mc_locks_sep"] = {"distinct_states": r.distinct}
+    if tier == "thorough":
+        # unbounded: the inductive invariant of LocksProof.tla (any number of handles in separate processes and of
+        # writers, behaviours of any length) re-checked by the TLA+ proof system
+        n_obl, wall = common.tlapm("LocksProof", deps=("Locks",))
+        v.cov["tlaps_obligations_proved"] = n_obl
     h = common.build_harness()
     d = common.sub("c07")
     scheds = sched_writer_states(h, d, tier)
